@@ -87,6 +87,10 @@ def make_case(seed, facts, index=0, weights=None):
             swarm["in_focus"], swarm["mix"] = ["BUY"], (0.9, 0.97)
     country = rng.choice(tree.COUNTRIES)
     neg = rng.random() < 0.12
+    if neg and rng.random() < 0.6:
+        swarm["n_holders"] = rng.choice([2, 3])
+        swarm["holder_per_asset"] = rng.random() < 0.6
+        swarm["n_assets"] = rng.choice([2, 2, 3])
     world = None
     for _ in range(50):
         world = W.gen_world(rng, swarm, country)
@@ -115,8 +119,18 @@ def _overdraw(rng, world):
     if len(accounts) < 2 or not outs:
         return
     r = rng.choice(outs)
+    if rng.random() < 0.6:
+        # the closing disposal of an asset booked on somebody else's account: the asset is sold out as a whole while one holder's account
+        # stays positive and another's goes negative (joint filers who sell from whichever account is at hand)
+        by_asset = {}
+        for a, t, row in W.all_rows(world):
+            if t == "OUT":
+                by_asset.setdefault(a, []).append(row)
+        a = rng.choice(sorted(by_asset))
+        r = max(by_asset[a], key=lambda row: W.parse_ts(row["timestamp"]))
     others = [a for a in accounts if a != (r["exchange"], r["holder"])]
-    r["exchange"], r["holder"] = rng.choice(others)
+    other_holder = [a for a in others if a[1] != r["holder"]]
+    r["exchange"], r["holder"] = rng.choice(other_holder if other_holder and rng.random() < 0.7 else others)
 
 
 def valid_case(case):
